@@ -55,12 +55,18 @@ ARCH = [
      "sections": [{"df": {"cols": [{"name": "@N0", "dtype": "str", "values": ["@G0:v0"] * 3 + ["@G0:v1"] * 2},
                                    {"name": "@N1", "dtype": "str", "values": [f"r{i}" for i in range(5)]}]},
                    "body": {"page_by": ["@N0"], "text_color": ["red", "purple"]}, "headers": "default"}]},
-    # 5 group_by table without colours
-    {"kind": "table", "sections": [{"df": {"cols": [{"name": "@N0", "dtype": "str", "values": ["a", "a", "b"]},
-                                                  {"name": "@N1", "dtype": "int", "values": [1, 2, 3]}]},
-                                    "body": {"group_by": ["@N0"]}, "headers": "default"}]},
+    # 5 paginated group_by table without colours
+    {"kind": "table", "page": {"nrow": 4},
+     "sections": [{"df": {"cols": [{"name": "@N0", "dtype": "str", "values": ["a", "a", "a", "a", "b", "b"]},
+                                   {"name": "@N1", "dtype": "int", "values": [1, 2, 3, 4, 5, 6]}]},
+                   "body": {"group_by": ["@N0"]}, "headers": "default"}]},
+    # 6 another paginated group_by table on a same-named column, other run lengths
+    {"kind": "table", "page": {"nrow": 5},
+     "sections": [{"df": {"cols": [{"name": "@N0", "dtype": "str", "values": ["x", "y", "y", "y", "y", "y", "z"]},
+                                   {"name": "@N1", "dtype": "str", "values": [f"q{i}" for i in range(7)]}]},
+                   "body": {"group_by": ["@N0"], "text_color": "blue"}, "headers": "default"}]},
 ]
-QUICK_PAIRS = [(0, 1), (1, 0), (0, 2), (2, 0), (3, 0), (0, 3), (2, 4), (4, 2)]
+QUICK_PAIRS = [(0, 1), (1, 0), (0, 2), (2, 0), (3, 0), (0, 3), (2, 4), (4, 2), (5, 6), (6, 5)]
 
 
 def fresh(i):
